@@ -15,7 +15,9 @@ N_VALUES = [(1, True), (2, True), (7, True), (1000, True), (0, False), (-1, Fals
             (2.0, True), (5.0, True), (1.0, True), (0.0, False), (-2.0, False), (2.5, False), (0.5, False),
             (1e-9, False), ("2", False), (None, False), (math.inf, False),
             (2.000000001, False), (1.9999999999999998, False), (2.0000000000001, False), (3 - 1e-12, False),
-            (1000000000.5, False), (1e300, True)]
+            (1000000000.5, False), (1e300, True),
+            # integers that no float holds exactly must be accepted and reported back unchanged
+            (2 ** 53 + 1, True), (10 ** 23, True), (10 ** 400, True)]
 EXP_BASES = [(0.5, True), (1, True), (1.0, True), (2, True), (E, True), (10.0, True), (1e-9, True), (1e-300, True),
              (0, False), (0.0, False), (-1, False), (-0.5, False), (-E, False)]
 LOG_BASES = [(0.5, True), (2, True), (E, True), (10.0, True), (1e-9, True), (1 + 1e-12, True), (1 - 1e-12, True),
@@ -23,7 +25,9 @@ LOG_BASES = [(0.5, True), (2, True), (E, True), (10.0, True), (1e-9, True), (1 +
              (0, False), (0.0, False), (-1, False), (-0.5, False)]
 NAMES = [("x", True), ("x1", True), ("_a", True), ("9", True), ("long_name_2", True), ("αβ", True),
          ("self", True), ("kwargs", True), ("", False), ("a b", False), ("a-b", False), ("x.y", False),
-         ("x\n", False), (" x", False), ("x;", False), ("a+b", False), ("é!", False)]
+         ("x\n", False), (" x", False), ("x;", False), ("a+b", False), ("é!", False),
+         ("e\u0301", False), ("a\u203fb", False), ("x\u00b7y", False), ("x\uff3f", False), ("\u00b5", True), ("x\u00b2", True),
+         ("\ufb01", True), ("x\u0660", True), ("x\u200d", False), ("x\u00ad", False)]
 
 
 def lift(v):
